@@ -104,9 +104,18 @@ func (x *g) genMethod(sv *spec.Service, j int, used map[string]bool) {
 			break
 		}
 	}
+	// ---- HTTP streaming (websocket) methods: payload, streaming payload and result come from stream.go
+	streaming := x.wantStream(sv)
+	if streaming {
+		x.genStream(m)
+	}
 	// ---- payload
-	pk := x.r.Intn(10)
+	pk := 0
+	if !streaming {
+		pk = x.r.Intn(10)
+	}
 	switch {
+	case streaming:
 	case pk == 0 && x.o.Profile != "security":
 		// no payload
 		x.s.AddFeature("payload-none")
@@ -140,7 +149,7 @@ func (x *g) genMethod(sv *spec.Service, j int, used map[string]bool) {
 		x.s.AddFeature("payload-inline")
 	}
 	// validation profile: carry a single-validation type in the body of payload and result
-	if len(x.solo) > 0 && m.Payload != nil && m.Payload.Type.Kind == spec.Object && x.chance(2, 3) {
+	if len(x.solo) > 0 && !streaming && m.Payload != nil && m.Payload.Type.Kind == spec.Object && x.chance(2, 3) {
 		m.Payload.Type.Attrs = append(m.Payload.Type.Attrs, &spec.Attr{Name: "solo_in", Type: &spec.Type{Kind: spec.Ref, Ref: x.solo[x.r.Intn(len(x.solo))]}})
 	}
 	// a map of primitives that genHTTP may send in the query string (name[key]=value)
@@ -178,9 +187,13 @@ func (x *g) genMethod(sv *spec.Service, j int, used map[string]bool) {
 		x.addSecurityAttrs(sv, m)
 	}
 	// ---- result
-	rk := x.r.Intn(10)
-	textResult := x.o.Profile != "grpc" && x.o.Profile != "views" && (x.o.Profile == "http-loc" && x.chance(1, 5) || x.chance(1, 14))
+	rk := 0
+	if !streaming {
+		rk = x.r.Intn(10)
+	}
+	textResult := !streaming && x.o.Profile != "grpc" && x.o.Profile != "views" && (x.o.Profile == "http-loc" && x.chance(1, 5) || x.chance(1, 14))
 	switch {
+	case streaming:
 	case textResult:
 		// a String or Bytes result (genResponses announces it with a text media type most of the time)
 		m.Result = &spec.Attr{Type: &spec.Type{Kind: x.r.Pick(spec.Bytes, spec.String, spec.Bytes)}}
@@ -316,7 +329,11 @@ func (x *g) addSecurityAttrs(sv *spec.Service, m *spec.Method) {
 	}
 	if m.Payload.Type.Kind != spec.Object {
 		// security attributes need an object payload we own: replace
-		m.Payload = &spec.Attr{Type: x.genObject(1, "")}
+		if m.Stream != "" {
+			m.Payload = &spec.Attr{Type: x.genStreamInitObject()}
+		} else {
+			m.Payload = &spec.Attr{Type: x.genObject(1, "")}
+		}
 	}
 	t := m.Payload.Type
 	used := map[string]bool{}
@@ -476,6 +493,11 @@ func (x *g) genHTTP(sv *spec.Service, m *spec.Method, idx int) {
 				if x.o.Profile == "http-loc" || x.o.Profile == "openapi" {
 					where = x.r.Intn(7)
 				}
+				if m.Stream != "" && where > 5 {
+					// a websocket handshake is a GET without body: every attribute travels in the path, the
+					// query string, a header or a cookie (stream.go only draws attributes that can)
+					where = x.r.Intn(6)
+				}
 				switch {
 				case where == 0 && prim && !a.HasDef && owned && x.pathOK(rt, a) && strings.Count(path, "{") < 2:
 					path += "/{" + a.Name + "}"
@@ -508,6 +530,14 @@ func (x *g) genHTTP(sv *spec.Service, m *spec.Method, idx int) {
 				case where == 5 && prim && x.chance(1, 2):
 					h.Cookies = append(h.Cookies, spec.Loc{Attr: a.Name, Wire: wire(cookieWire, a.Name)})
 					x.s.AddFeature("cookie")
+				case m.Stream != "":
+					if x.chance(1, 2) {
+						h.Query = append(h.Query, spec.Loc{Attr: a.Name, Wire: wire(queryWire, a.Name)})
+						x.s.AddFeature("query-param")
+					} else {
+						h.Headers = append(h.Headers, spec.Loc{Attr: a.Name, Wire: wire(headerWire, a.Name)})
+						x.s.AddFeature("header")
+					}
 				default:
 					hasBody = true
 				}
@@ -530,10 +560,10 @@ func (x *g) genHTTP(sv *spec.Service, m *spec.Method, idx int) {
 				path += "/{val}"
 				h.Path = append(h.Path, spec.Loc{Attr: "", Wire: "val"})
 				x.s.AddFeature("payload-primitive-path")
-			case prim && x.chance(1, 3):
+			case prim && (x.chance(1, 3) || m.Stream != "" && (x.o.Runtime || x.chance(1, 2))):
 				h.Query = append(h.Query, spec.Loc{Attr: "", Wire: "val"})
 				x.s.AddFeature("payload-primitive-query")
-			case prim && x.chance(1, 3):
+			case prim && (x.chance(1, 3) || m.Stream != ""):
 				h.Headers = append(h.Headers, spec.Loc{Attr: "", Wire: "X-Val"})
 				x.s.AddFeature("payload-primitive-header")
 			default:
@@ -545,7 +575,7 @@ func (x *g) genHTTP(sv *spec.Service, m *spec.Method, idx int) {
 	// otherwise travel in the body; a later method of the same service may share the pattern under
 	// another verb with its own wildcard name
 	var avoid map[string]bool
-	if p := m.Payload; p != nil && p.Type.Kind == spec.Object && !strings.Contains(path, "{") && h.Body == "" &&
+	if p := m.Payload; p != nil && m.Stream == "" && p.Type.Kind == spec.Object && !strings.Contains(path, "{") && h.Body == "" &&
 		(x.chance(1, 6) || (x.o.Profile == "http-loc" && x.chance(1, 2)) || x.catchAll[sv.Name] != nil && x.chance(2, 3)) {
 		has := false
 		for _, a := range p.Type.Attrs {
@@ -586,6 +616,8 @@ func (x *g) genHTTP(sv *spec.Service, m *spec.Method, idx int) {
 	verb := "GET"
 	if hasBody {
 		verb = x.r.Pick("POST", "PUT", "PATCH", "POST")
+	} else if m.Stream != "" {
+		// websocket endpoints are GET
 	} else if x.chance(1, 3) {
 		verb = x.r.Pick("DELETE", "POST", "PUT")
 	}
@@ -627,13 +659,17 @@ func (x *g) genHTTP(sv *spec.Service, m *spec.Method, idx int) {
 			x.s.AddFeature("skip-request-body")
 		}
 	}
-	if !strings.Contains(path, "{*") && (x.chance(1, 6) || (x.o.Profile == "openapi" && x.chance(1, 2))) {
+	// (a streaming endpoint with two routes crashes the OpenAPI 3 generator: findings/C01-stream-multi-route-openapi3;
+	// kept for C01, not emitted for the runtime checks which need the generated code)
+	if !strings.Contains(path, "{*") && (m.Stream == "" && (x.chance(1, 6) || (x.o.Profile == "openapi" && x.chance(1, 2))) || m.Stream != "" && !x.o.Runtime && x.chance(1, 10)) {
 		alt := "/alt" + path
 		h.Routes = append(h.Routes, spec.Route{Verb: verb, Path: alt})
 		x.s.AddFeature("multi-route")
 	}
-	// ---- responses
-	x.genResponses(sv, m)
+	// ---- responses (a streaming endpoint answers the handshake; its results travel as websocket messages)
+	if m.Stream == "" {
+		x.genResponses(sv, m)
+	}
 	// ---- error responses
 	for _, e := range m.Errors {
 		he := &spec.HTTPError{Name: e.Name, Status: pickErrStatus(x.r)}
